@@ -513,6 +513,11 @@ def grid(tier):
     add("MatrixMult", n=3, m=2, otherdims=[2])
     add("MatrixMult", n=2, m=3, otherdims=[2, 2], cplx=True)
     add("MatrixMult", n=3, m=4, sparse=True)
+    add("MatrixMult", n=3, m=4)
+    for method in (None, "direct", "fft"):
+        add("Convolve1D", dims=[7], nh=4, offset=2, method=method)
+    for method in (None, "fft", "overlapadd"):
+        add("Convolve1D", dims=[5, 3], nh=3, offset=0, axis=0, method=method)
     shapes1 = [[1], [2], [5], [6]]
     shapes2 = [[3, 4], [4, 3]] + ([[1, 5], [5, 1], [2, 2]] if T else [])
     shapes3 = [[2, 3, 4]] + ([[3, 2, 2]] if T else [])
